@@ -24,6 +24,7 @@ def units_for(repo, cs, pid):
         us.append(Unit(f'{pid}/py/Interpreter.pattern/{c}', pattern_unit(repo, cs, c, False), info={'split_depth': 1}))
     us.append(Unit(f'{pid}/py/MemoizingInterpreter.pattern', pattern_unit(repo, cs, 'Implies', True), info={'split_depth': 1}))
     us.append(Unit(f'{pid}/py/Interpreter.pattern/Instantiate', pattern_unit(repo, cs, 'Instantiate', False), info={'split_depth': 1}))
+    us.append(Unit(f'{pid}/py/Interpreter.pattern[through MemoizingInterpreter]/Instantiate', pattern_unit(repo, cs, 'Instantiate', 'base'), info={'split_depth': 1}))
     for k in (0, 1, 2, 3):
         for w, tag in ((False, ''), ('base', '[through MemoizingInterpreter]')):
             if w and k > (2 if TIER[0] == 'thorough' else 1):
